@@ -45,7 +45,7 @@ func runC07(c *mon.Ctx) {
 	signer := w.IdP[2]
 	plaintexts := []string{"idp-signed", "forged-unsigned", "attacker-signed", "attacker-signed-trusted-keyinfo", "non-assertion", "response", "garbage"}
 	placements := []string{"direct", "direct", "extensions", "advice", "wrapper", "nested-in-assertion"}
-	recips := []string{"none", "sp", "another", "bad-base64"}
+	recips := []string{"none", "sp", "another", "bad-base64", "another-cert-same-key", "another-ec"}
 	keyAlgs := []string{sim.RSAOAEP, sim.RSAOAEP11, sim.RSA15}
 	n := c.N(3000, 150000)
 	for k := 0; k < n; k++ {
@@ -63,6 +63,11 @@ func runC07(c *mon.Ctx) {
 			spec.Recipient = w.SPEnc
 		case "another":
 			spec.Recipient = sim.Wide(sim.K("spenc2"), base)
+		case "another-cert-same-key":
+			// a different certificate minted around the SP's own public key (anyone can do that; or the SP's previous one)
+			spec.Recipient = sim.MintNamed(w.SPEnc.Key, pick(r, []string{"verif-spenc", "someone-else"}), base.AddDate(-1, 0, 0), base.AddDate(5, 0, 0), 77)
+		case "another-ec":
+			spec.Recipient = sim.Wide(sim.K("idp3"), base) // a well-formed certificate holding a non-RSA key
 		case "bad-base64":
 			spec.RecipRaw = sim.S("!!!not base64!!!")
 		}
@@ -204,7 +209,7 @@ func runC07(c *mon.Ctx) {
 		t      time.Time
 		inside bool
 	}{{"inside", nb.Add(time.Hour), true}, {"before", nb.Add(-time.Second), false}, {"after", na.Add(time.Second), false}, {"just-inside-start", nb.Add(time.Second), true}, {"just-inside-end", na.Add(-time.Second), true}}
-	certKinds := []string{"valid", "valid", "empty-list", "empty-bytes", "junk", "rotating-store"}
+	certKinds := []string{"valid", "valid", "empty-list", "empty-bytes", "junk", "rotating-store", "retired-field-pair"}
 	nc := c.N(800, 20000)
 	for k := 0; k < nc; k++ {
 		cs := c.Begin("encryption-cert-config", k)
@@ -221,6 +226,13 @@ func runC07(c *mon.Ctx) {
 		a := rec.Assertions[0]
 		a.Sig = sim.DefaultSig(idp.Key, idp)
 		a.Enc = &sim.EncSpec{DataAlg: pick(r, sim.DataAlgs), KeyAlg: pick(r, keyAlgs), To: spCert}
+		retired := sim.Mint(sim.K("spenc2"), nb.AddDate(-3, 0, 0), nb.AddDate(-2, 0, 0), 26)
+		if ck == "retired-field-pair" {
+			a.Enc.To = retired
+			if r.IntN(2) == 0 {
+				a.Enc.Recipient = retired
+			}
+		}
 		if ck == "valid" && r.IntN(2) == 0 {
 			a.Enc.Recipient = spCert
 		}
@@ -261,6 +273,12 @@ func runC07(c *mon.Ctx) {
 			sp.SPKeyStore = dsig.TLSCertKeyStore(tls.Certificate{Certificate: [][]byte{{}}, PrivateKey: spCert.Key.RSA(), Leaf: leaf()})
 		case "junk":
 			sp.SPKeyStore = dsig.TLSCertKeyStore(tls.Certificate{Certificate: [][]byte{[]byte("this is not DER")}, PrivateKey: spCert.Key.RSA(), Leaf: leaf()})
+		case "retired-field-pair":
+			// the deprecated field still holds a retired pair whose certificate is outside its validity at every probed
+			// clock; the setter holds the current pair. The message is encrypted to the RETIRED key: only the current
+			// pair may decrypt, so this must be refused whatever the option says
+			sp.SPKeyStore = &RSAKeyStore{C: retired}
+			sp.SetSPKeyStore(&saml2.KeyStore{Signer: spCert.Key.Signer, Cert: spCert.DER})
 		case "rotating-store":
 			// the store answers the first call with the key the message is encrypted to but an unusable certificate,
 			// later calls with a fine pair: the certificate that belongs to the decrypting key is the one that counts
@@ -277,6 +295,9 @@ func runC07(c *mon.Ctx) {
 		}
 		cs.Nontrivial(cs.Description())
 		mustRefuse := opt && (ck != "valid" || !clk.inside)
+		if ck == "retired-field-pair" {
+			mustRefuse = opt || a.Enc.Recipient != nil
+		}
 		if ck == "rotating-store" && !opt {
 			mustRefuse = false
 		}
